@@ -139,6 +139,16 @@ func (w *world) simulateFromHolder(b built, plan planInfo, d defects, nullMatche
 	if b.scalar {
 		return []any{json.Number(strconv.Itoa(len(rows)))}, true
 	}
+	if b.idSet != nil {
+		// a docID argument restricts the yielded rows
+		kept := []any{}
+		for _, row := range rows {
+			if id, _ := dig(row, "_docID").(string); b.idSet[id] {
+				kept = append(kept, row)
+			}
+		}
+		rows = kept
+	}
 	return rows, true
 }
 
